@@ -46,6 +46,7 @@ ARCH = {  # ppci march -> data model (sizes are re-checked against ppci's arch i
 }
 DESTS = ["char", "uchar", "short", "ushort", "int", "uint", "long", "ulong", "llong"]
 SHIFT_COUNT_MAX = 79
+MUL_RIGHT_MAX = 0xFFFF
 SHIM_MODULES = ("ppci.lang.c.eval", "ppci.lang.c.context", "ppci.lang.c.codegenerator",
                 "ppci.lang.c.semantics", "ppci.lang.c.init", "ppci.utils.bitfun", "ppci.utils.integer_set",
                 "ppci.irutils.builder", "ppci.ir")
@@ -53,7 +54,8 @@ SHIM_MODULES = ("ppci.lang.c.eval", "ppci.lang.c.context", "ppci.lang.c.codegene
 BOUNDS = {
     "quick": {"target": "x86_64 (LP64)",
               "literal values": "every value 0..max of the literal's type (int, unsigned, long, unsigned long by suffix); "
-                                f"literals inside a shift count: 0..{SHIFT_COUNT_MAX}",
+                                f"literals inside a shift count: 0..{SHIFT_COUNT_MAX}; literals inside the right factor of a product that has a compound factor "
+                                "(not L, -L, (T)L): 0..65535",
               "expression shapes": "depth 1 exhaustive: leaf op leaf for the 18 binary operators, unary - ~ ! + on a leaf, "
                                    "casts to the 9 integer types, ?:, with leaves L, (-L), (T)L over literal types int/unsigned/long/unsigned long",
               "uses": "global scalar initialiser of every integer type (char ... long long); array element, struct field, "
@@ -189,6 +191,9 @@ class CExprHarness(Harness):
         # engine width: chosen adaptively by run_batch (EngineBound => retry wider); replay is concrete
         self.W = W or (80 + 64 * self.text.count("*") + (SHIFT_COUNT_MAX + 1) * self.text.count("<<"))
         self.shiftlits = csem.shift_count_literals(expr)
+        # products whose factors are both plain literals keep the full ranges; with a compound factor the literals of
+        # the right factor are limited (symbolic wide x wide products of sub-expressions are out of the solvers' reach)
+        self.mullits = csem.mul_right_literals(expr, compound_only=True)
 
     # -- inputs ------------------------------------------------------------------------------------
     def inputs(self, mk):
@@ -198,6 +203,8 @@ class CExprHarness(Harness):
             lo, hi = lit_range(dm, s)
             if i in self.shiftlits:
                 hi = min(hi, SHIFT_COUNT_MAX)
+            if i in self.mullits:
+                hi = min(hi, MUL_RIGHT_MAX)
             vals[i] = mk.int(f"L{i}", lo, hi)
         lv = [vals[i] for i in sorted(vals)]
         exp, defined, flags = self.oracle(lv)
@@ -216,6 +223,8 @@ class CExprHarness(Harness):
             lo, hi = lit_range(self.dm, s)
             if i in self.shiftlits:
                 hi = min(hi, SHIFT_COUNT_MAX)
+            if i in self.mullits:
+                hi = min(hi, MUL_RIGHT_MAX)
             out.append((lo, hi))
         return out
 
